@@ -2,7 +2,7 @@
 from contracts import rt_objects
 from pyvc.report import Report
 from pyvc.rtver import RtCx
-from .common import run_rt
+from .common import run_rt, dependency_layer
 from . import wiring
 
 
@@ -24,4 +24,5 @@ def run(tier, seed):
     rep.assumptions.append('copy / pickle are dependencies known by their documented protocol (__reduce_ex__(4), copyreg.__newobj__, hasattr(y, "__setstate__"), __dict__.update)')
     rep.assumptions.append('equivalence-relation and eq=>hash laws for whole trees follow from the per-object contracts by induction on height, given that == on foreign field values is an equivalence and xor is associative/commutative (paper)')
     rep.assumptions.append('hash cache is sound for objects not mutated after hashing (fields are plain attributes)')
+    dependency_layer(rep, tier)
     return rep.finish()
